@@ -129,6 +129,22 @@ pub fn exec_par(w: &mut World, st: &Step) -> bool {
     }
     let op_base = w.op_no;
     w.op_no += clients.iter().map(|c| c.len()).sum::<usize>();
+    // one failing backend request inside this batch?
+    let inject = {
+        let h = crate::chooser::mix(w.cfg.hash_seed, 0xfa11 + w.step_no as u64);
+        w.oracles.par_fault_pct > 0 && !w.cfg.read_only && h % 100 < w.oracles.par_fault_pct as u64
+    };
+    if inject {
+        let h = crate::chooser::mix(w.cfg.hash_seed, 0xfa12 + w.step_no as u64);
+        let base = w.sim.core.fault_ordinal.get();
+        let mut f = w.sim.core.faults.borrow_mut();
+        f.fault_file = w.files[0];
+        f.fail_ordinals = [base + (h % 48) as usize].into_iter().collect();
+        drop(f);
+        w.faults_active = true;
+        w.par_fault_seen = true;
+        w.stat("par_batches_with_fault");
+    }
     let stop = {
         let dev = w.dev.as_ref().unwrap();
         let sim = w.sim.clone();
@@ -254,6 +270,10 @@ pub fn exec_par(w: &mut World, st: &Step) -> bool {
         let _g = sim.enter();
         sim.run_tasks(tasks, STEP_BUDGET)
     };
+    if inject {
+        w.sim.core.faults.borrow_mut().fail_ordinals.clear();
+        w.faults_active = false;
+    }
     let what = format!("concurrent batch (step {})", w.step_no);
     if let Err(s) = stop {
         let pend: Vec<String> = clients
@@ -386,7 +406,7 @@ pub fn exec_par(w: &mut World, st: &Step) -> bool {
         // KF02, repaired by F45; such histories are ordinary ones now)
     }
     // spurious failures
-    if w.oracles.fault_free {
+    if w.oracles.fault_free && !inject {
         for h in &hist {
             if !h.ok {
                 // a discard that fails is C11's business too ("returns Ok for
